@@ -54,6 +54,8 @@ def fallback(pc):
     cases = [{'script': 'static_case.py', 'case': {'requests': REQS, 'fault': None, 'revalidate': True}}]
     for call in ('read', 'getsize', 'getmtime', 'seek'):
         cases.append({'script': 'static_case.py', 'case': {'requests': REQS, 'fault': {'call': call}}})
+    for call in ('getsize', 'getmtime'):        # the file vanished after open(): FileNotFoundError, a subclass of OSError
+        cases.append({'script': 'static_case.py', 'case': {'requests': REQS, 'fault': {'call': call, 'errno': 'ENOENT'}}})
     return cases
 
 
